@@ -13,6 +13,7 @@ package main
 import (
 	"bytes"
 	"crypto/ecdsa"
+	"crypto/sha256"
 	"encoding/binary"
 	"encoding/json"
 	"fmt"
@@ -21,6 +22,7 @@ import (
 	"strings"
 	"time"
 
+	"github.com/idena-network/idena-go/blockchain"
 	"github.com/idena-network/idena-go/blockchain/attachments"
 	"github.com/idena-network/idena-go/blockchain/types"
 	"github.com/idena-network/idena-go/common"
@@ -28,6 +30,7 @@ import (
 	"github.com/idena-network/idena-go/config"
 	"github.com/idena-network/idena-go/core/appstate"
 	"github.com/idena-network/idena-go/core/ceremony"
+	"github.com/idena-network/idena-go/core/mempool"
 	"github.com/idena-network/idena-go/core/state"
 	"github.com/idena-network/idena-go/crypto"
 	"github.com/idena-network/idena-go/database"
@@ -63,7 +66,7 @@ type c17sub struct {
 }
 
 type c17step struct {
-	Op   string `json:"op"`             // block crash restart eval eval2 reset
+	Op   string `json:"op"`             // block crash restart eval eval2 reset finish rollback
 	Txs  []int  `json:"txs,omitempty"`  // block/crash: indexes into the case's transaction list
 	Keep int    `json:"keep,omitempty"` // reset: number of blocks kept
 }
@@ -75,6 +78,10 @@ type c17cer struct {
 	U11    bool       `json:"u11"`
 	U12    bool       `json:"u12"`
 	Shards int        `json:"shards,omitempty"` // number of shards (0 = 1)
+	// Full: every collaborator of the ceremony is real (flipper, key pool, tx pool, chain), the state is inside the
+	// after-long-session period, blocks go through the real addBlock, candidates through the real
+	// calculateCeremonyCandidates; needed for the epoch switch ("finish") and the rollback over it ("rollback")
+	Full bool `json:"full,omitempty"`
 	Ids    []c17ident `json:"ids"`
 	Subs   []c17sub   `json:"subs"`
 	Script []c17step  `json:"script"`
@@ -168,6 +175,10 @@ func c17newFx(cs c17cer) (fx *c17fx, err error) {
 	st.SetGodAddress(god)
 	st.SetGlobalEpoch(cs.Epoch)
 	st.SetNextValidationTime(time.Unix(4070908800, 0))
+	if cs.Full {
+		st.SetNextValidationTime(time.Now().UTC().Add(-2 * time.Hour))
+		st.SetValidationPeriod(state.AfterLongSessionPeriod)
+	}
 	if nShards > 1 {
 		st.SetShardsNum(uint32(nShards))
 	}
@@ -232,10 +243,40 @@ type c17node struct {
 	db  dbm.DB
 }
 
+var c17chainOnce struct {
+	chain *blockchain.Blockchain
+	pool  *mempool.TxPool
+}
+
+// one real (test) blockchain + tx pool serve every full fixture: the ceremony only asks them for the head time and
+// the validation configuration (shouldInteractWithNetwork)
+func c17chain() (*blockchain.Blockchain, *mempool.TxPool) {
+	if c17chainOnce.chain == nil {
+		tc, _, pool, _ := blockchain.NewTestBlockchain(false, nil)
+		tc.Config().Sync = &config.SyncConfig{}
+		c17chainOnce.chain, c17chainOnce.pool = tc.Blockchain, pool
+	}
+	return c17chainOnce.chain, c17chainOnce.pool
+}
+
 func (fx *c17fx) newNode(db dbm.DB, restore bool) *c17node {
 	bus := eventbus.New()
+	if fx.cs.Full {
+		chain, pool := c17chain()
+		vc := ceremony.VerifC17NewFullCeremony(fx.app, bus, db, fx.cfg, fx.ss, chain, pool, fx.seed, restore)
+		return &c17node{vc: vc, bus: bus, db: db}
+	}
 	vc := ceremony.VerifC17NewCeremony(fx.app, bus, db, fx.cfg, fx.ss, fx.seed, restore)
 	return &c17node{vc: vc, bus: bus, db: db}
+}
+
+// processBlock: a block of the ceremony reaches the node (full fixture: the real addBlock)
+func (fx *c17fx) processBlock(n *c17node, height uint64, txs []*types.Transaction) {
+	if fx.cs.Full {
+		n.vc.VerifC17AddBlock(height, 0, txs)
+		return
+	}
+	n.vc.VerifC17ProcessBlock(txs)
 }
 
 // majority answer of a flip (what an honest solver sees)
@@ -369,7 +410,106 @@ type c17result struct {
 	Root   string
 	Missed   []bool // per identity, from the validation stats of a first evaluation (nil on a cache hit)
 	Approved []bool // per identity, same source
-	Panic  string
+	Panic   string
+	Rewards string // digest of everything the reward distribution reads from the epoch result
+}
+
+// c17rewards: canonical text of ShardResults (bad/good authors, author results, good inviters, reporters), pools and
+// non-validated stakes
+func c17rewards(out types.TotalValidationResult) string {
+	var sb strings.Builder
+	sortedAddrs := func(n int, each func(func(common.Address))) []common.Address {
+		res := make([]common.Address, 0, n)
+		each(func(a common.Address) { res = append(res, a) })
+		sort.Slice(res, func(i, j int) bool { return bytes.Compare(res[i][:], res[j][:]) < 0 })
+		return res
+	}
+	var shards []int
+	for id := range out.ShardResults {
+		shards = append(shards, int(id))
+	}
+	sort.Ints(shards)
+	for _, id := range shards {
+		r := out.ShardResults[common.ShardId(id)]
+		if r == nil {
+			continue
+		}
+		fmt.Fprintf(&sb, "shard %d;", id)
+		for _, a := range sortedAddrs(len(r.BadAuthors), func(f func(common.Address)) {
+			for a := range r.BadAuthors {
+				f(a)
+			}
+		}) {
+			fmt.Fprintf(&sb, "bad %x=%d;", a[:4], r.BadAuthors[a])
+		}
+		for _, a := range sortedAddrs(len(r.GoodAuthors), func(f func(common.Address)) {
+			for a := range r.GoodAuthors {
+				f(a)
+			}
+		}) {
+			g := r.GoodAuthors[a]
+			fmt.Fprintf(&sb, "good %x=%v/%d/", a[:4], g.Missed, g.NewIdentityState)
+			for _, fl := range g.FlipsToReward {
+				fmt.Fprintf(&sb, "%x:%d:%s,", fl.Cid, fl.Grade, fl.GradeScore.String())
+			}
+			sb.WriteByte(';')
+		}
+		for _, a := range sortedAddrs(len(r.AuthorResults), func(f func(common.Address)) {
+			for a := range r.AuthorResults {
+				f(a)
+			}
+		}) {
+			x := r.AuthorResults[a]
+			fmt.Fprintf(&sb, "author %x=%v%v%v;", a[:4], x.HasOneReportedFlip, x.HasOneNotQualifiedFlip, x.AllFlipsNotQualified)
+		}
+		for _, a := range sortedAddrs(len(r.GoodInviters), func(f func(common.Address)) {
+			for a := range r.GoodInviters {
+				f(a)
+			}
+		}) {
+			x := r.GoodInviters[a]
+			fmt.Fprintf(&sb, "inviter %x=%v/%d/", a[:4], x.PayInvitationReward, x.NewIdentityState)
+			inv := append([]*types.SuccessfulInvite{}, x.SuccessfulInvites...)
+			sort.Slice(inv, func(i, j int) bool { return bytes.Compare(inv[i].Address[:], inv[j].Address[:]) < 0 })
+			for _, si := range inv {
+				fmt.Fprintf(&sb, "%x:%d:%d:%v,", si.Address[:4], si.Age, si.EpochHeight, si.Penalized)
+			}
+			sb.WriteByte(';')
+		}
+		var flips []int
+		for f := range r.ReportersToRewardByFlip {
+			flips = append(flips, f)
+		}
+		sort.Ints(flips)
+		for _, f := range flips {
+			m := r.ReportersToRewardByFlip[f]
+			fmt.Fprintf(&sb, "report %d=", f)
+			for _, a := range sortedAddrs(len(m), func(g func(common.Address)) {
+				for a := range m {
+					g(a)
+				}
+			}) {
+				fmt.Fprintf(&sb, "%x/%d,", a[:4], m[a].NewIdentityState)
+			}
+			sb.WriteByte(';')
+		}
+	}
+	for _, a := range sortedAddrs(len(out.Pools), func(f func(common.Address)) {
+		for a := range out.Pools {
+			f(a)
+		}
+	}) {
+		fmt.Fprintf(&sb, "pool %x;", a[:4])
+	}
+	for _, a := range sortedAddrs(len(out.NonValidatedStakes), func(f func(common.Address)) {
+		for a := range out.NonValidatedStakes {
+			f(a)
+		}
+	}) {
+		fmt.Fprintf(&sb, "nvs %x=%s;", a[:4], out.NonValidatedStakes[a].String())
+	}
+	h := sha256.Sum256([]byte(sb.String()))
+	return fmt.Sprintf("%x", h[:6])
 }
 
 func (r *c17result) digest() string {
@@ -381,7 +521,7 @@ func (r *c17result) digest() string {
 	for _, i := range r.Ids {
 		fmt.Fprintf(&sb, "%d/%d,", i.New, i.Birthday)
 	}
-	sb.WriteString(" root=" + r.Root)
+	sb.WriteString(" root=" + r.Root + " rewards=" + r.Rewards)
 	return sb.String()
 }
 
@@ -398,6 +538,7 @@ func (fx *c17fx) eval(n *c17node, height uint64) (res *c17result) {
 	}
 	out := n.vc.ApplyNewEpoch(height, cs, nil)
 	res.Failed, res.Count = out.Failed, out.IdentitiesCount
+	res.Rewards = c17rewards(out)
 	for _, a := range fx.addrs {
 		id := cs.State.GetIdentity(a)
 		res.Ids = append(res.Ids, c17idres{New: uint8(id.State), Birthday: id.Birthday})
@@ -503,13 +644,16 @@ func (fx *c17fx) reference(set []int) *c17result {
 		return r
 	}
 	n := fx.newNode(dbm.NewMemDB(), false)
-	n.vc.VerifC17ProcessBlock(fx.wireTxsOf(can))
+	fx.processBlock(n, 2, fx.wireTxsOf(can))
 	r := fx.eval(n, 77)
 	fx.refCache[key] = r
 	return r
 }
 
 // ---------------------------------------------------------------- running a case
+
+// time given to the ceremony's background clean-up goroutine (completeEpoch) before the next step looks at the database
+const c17settle = 60 * time.Millisecond
 
 type c17failure struct {
 	sig, detail string
@@ -601,8 +745,14 @@ func c17runCer(cs c17cer) (lines *c17lines, fails []c17failure, evals int, tags 
 		versions[key] = len(versions) + 1
 		return versions[key]
 	}
-	resetSeen := false
+	resetSeen, rollbackSeen, finished := false, false, false
 	evalAt := map[uint64][]string{} // digests X returned per height
+	ownByVersion := map[int]string{} // X's first digest per data version
+	defer func() {
+		if finished { // leave the shared state as found (reference computations of later steps never run after this)
+			_ = fx.app.ResetTo(1)
+		}
+	}()
 	fail := func(sig, detail string) { fails = append(fails, c17failure{sig, detail}) }
 	for si, st := range cs.Script {
 		func() {
@@ -614,7 +764,7 @@ func c17runCer(cs c17cer) (lines *c17lines, fails []c17failure, evals int, tags 
 			}()
 			switch st.Op {
 			case "block":
-				node.vc.VerifC17ProcessBlock(fx.txsOf(st.Txs))
+				fx.processBlock(node, fx.baseH+uint64(len(blocks))+1, fx.txsOf(st.Txs))
 				blocks = append(blocks, st.Txs)
 				fx.addLines(l, st.Txs)
 				l.add("persist", "ok")
@@ -632,7 +782,7 @@ func c17runCer(cs c17cer) (lines *c17lines, fails []c17failure, evals int, tags 
 				node = fx.newNode(db, true)
 				l.add("fresh", "ok")
 				l.add("restore", "ok")
-				node.vc.VerifC17ProcessBlock(fx.txsOf(st.Txs))
+				fx.processBlock(node, fx.baseH+uint64(len(blocks))+1, fx.txsOf(st.Txs))
 				blocks = append(blocks, st.Txs)
 				fx.addLines(l, st.Txs)
 				l.add("persist", "ok")
@@ -642,17 +792,80 @@ func c17runCer(cs c17cer) (lines *c17lines, fails []c17failure, evals int, tags 
 				tags = append(tags, "crash")
 			case "restart":
 				node = fx.newNode(db, true)
+				if finished {
+					// the head is the validation-finishing block: the new process is in the next epoch and re-processes it
+					node.vc.VerifC17AddBlock(fx.baseH+uint64(len(blocks))+1, types.ValidationFinished, nil)
+					time.Sleep(c17settle)
+					tags = append(tags, "restart-after-finish")
+					break
+				}
 				l.add("fresh", "ok")
 				l.add("restore", "ok")
 				if len(blocks) > 0 {
 					head := blocks[len(blocks)-1]
-					node.vc.VerifC17ProcessBlock(fx.txsOf(head))
+					fx.processBlock(node, fx.baseH+uint64(len(blocks)), fx.txsOf(head))
 					fx.addLines(l, head)
 					l.add("persist", "ok")
 				}
 				l.add("dump", fx.storeDump(node))
 				l.add("reset "+fmt.Sprint(version()), "ok") // a new process has no cache
 				tags = append(tags, "restart")
+			case "finish":
+				// the validation-finishing block is accepted: the state moves to the next epoch, the ceremony completes the epoch
+				if !cs.Full || finished {
+					break
+				}
+				fx.app.State.IncEpoch()
+				fx.app.State.SetValidationPeriod(state.NonePeriod)
+				if err := fx.app.Commit(nil); err != nil {
+					panic(err)
+				}
+				node.vc.VerifC17AddBlock(fx.baseH+uint64(len(blocks))+1, types.ValidationFinished, nil)
+				time.Sleep(c17settle) // background clean-up of outdated epoch data
+				if node.vc.VerifC17Epoch() != cs.Epoch+1 {
+					fail("C17:epoch-not-completed", fmt.Sprintf("step %d: ceremony epoch %d after the validation-finishing block of epoch %d", si, node.vc.VerifC17Epoch(), cs.Epoch))
+				}
+				finished = true
+				tags = append(tags, "finish")
+			case "rollback":
+				// a fork at or below the validation height: the chain (and the state) is reset below the validation-finishing
+				// block, as a fork switch does; the real handler returns to the ceremony of the previous epoch
+				if !cs.Full || !finished {
+					break
+				}
+				if err := fx.app.ResetTo(1); err != nil {
+					panic(err)
+				}
+				keep := st.Keep
+				if keep > len(blocks) {
+					keep = len(blocks)
+				}
+				var reverted []int
+				for _, b := range blocks[keep:] {
+					reverted = append(reverted, b...)
+				}
+				node.bus.Publish(&events.BlockchainResetEvent{RevertedTxs: fx.txsOf(reverted)})
+				time.Sleep(c17settle) // background clean-up, if any
+				blocks = blocks[:keep]
+				finished = false
+				l.add("fresh", "ok") // completeEpoch: NewQualification over the previous epoch's database,
+				l.add("restore", "ok") // then restore()
+				for _, t := range reverted {
+					switch fx.txKind[t] {
+					case types.SubmitShortAnswersTx:
+						l.add(fmt.Sprintf("rm s %d", fx.txOwner[t]), "ok")
+					case types.SubmitLongAnswersTx:
+						l.add(fmt.Sprintf("rm l %d", fx.txOwner[t]), "ok")
+					}
+				}
+				l.add("persist", "ok")
+				l.add("dump", fx.storeDump(node))
+				l.add(fmt.Sprintf("reset %d", version()), "ok")
+				if node.vc.VerifC17Epoch() != cs.Epoch {
+					fail("C17:re-evaluation-after-rollback-differs", fmt.Sprintf("step %d: after the rollback the ceremony is in epoch %d, the chain in epoch %d", si, node.vc.VerifC17Epoch(), cs.Epoch))
+				}
+				rollbackSeen = true
+				tags = append(tags, "rollback")
 			case "reset":
 				var reverted []int
 				for _, b := range blocks[st.Keep:] {
@@ -675,6 +888,9 @@ func c17runCer(cs c17cer) (lines *c17lines, fails []c17failure, evals int, tags 
 				resetSeen = true
 				tags = append(tags, "reset")
 			case "eval", "eval2":
+				if finished {
+					break // the ceremony of this epoch is over on this chain; nothing evaluates it
+				}
 				evals++
 				h := fx.baseH + uint64(len(blocks)) + 1
 				got := fx.eval(node, h)
@@ -706,11 +922,25 @@ func c17runCer(cs c17cer) (lines *c17lines, fails []c17failure, evals int, tags 
 							stale = true
 						}
 					}
-					if resetSeen && stale {
+					if rollbackSeen {
+						sig = "C17:re-evaluation-after-rollback-differs"
+					} else if resetSeen && stale {
 						sig = "C17:stale-epoch-cache-after-reorg"
 					}
 					fail(sig, fmt.Sprintf("step %d (%s at height %d after %s): node returned %s ; a clean node on the same chain returns %s",
 						si, st.Op, h, strings.Join(tags, ","), got.digest(), ref.digest()))
+				}
+				// the node must also agree with its own earlier evaluation of the same chain data (reported once: a difference
+				// from the clean node above already covers it)
+				if prev, ok := ownByVersion[v]; ok && prev != got.digest() && got.Panic == "" && got.digest() == ref.digest() {
+					sig := "C17:evaluation-differs-from-own-earlier-evaluation"
+					if rollbackSeen {
+						sig = "C17:re-evaluation-after-rollback-differs"
+					}
+					fail(sig, fmt.Sprintf("step %d: the node evaluated the same chain data before and got %s, now %s", si, prev, got.digest()))
+				}
+				if _, ok := ownByVersion[v]; !ok {
+					ownByVersion[v] = got.digest()
 				}
 				evalAt[h] = append(evalAt[h], got.digest())
 				if got.Failed {
@@ -770,6 +1000,9 @@ func c17emitCer(c *hx.Ctx, cs c17cer) error {
 			c.Hit("cer:local-empty-payload-object")
 			break
 		}
+	}
+	if cs.Full {
+		c.Hit("cer:full-fixture")
 	}
 	if cs.Shards > 1 {
 		c.Hit(fmt.Sprintf("cer:shards=%d", cs.Shards))
@@ -1003,6 +1236,9 @@ func c17script(c *hx.Ctx, cs *c17cer, ntx int, scripted int) {
 	if mode < 0 {
 		mode = r.Intn(4)
 	}
+	if cs.Full && mode != 0 {
+		mode = 4
+	}
 	switch mode {
 	case 0: // arrival order + restarts, first vs cached evaluation
 		for _, b := range split(perm) {
@@ -1011,6 +1247,59 @@ func c17script(c *hx.Ctx, cs *c17cer, ntx int, scripted int) {
 		sc = append(sc, c17step{Op: "eval"}, c17step{Op: "eval2"})
 		if r.Intn(2) == 0 {
 			sc = append(sc, c17step{Op: "restart"}, c17step{Op: "eval"})
+		}
+	case 4: // rollback over the validation-finishing block (full fixture)
+		bs := split(perm)
+		for _, b := range bs {
+			block(b)
+		}
+		sc = append(sc, c17step{Op: "eval"})
+		if r.Intn(2) == 0 {
+			sc = append(sc, c17step{Op: "eval2"})
+		}
+		sc = append(sc, c17step{Op: "finish"})
+		if r.Intn(3) == 0 {
+			sc = append(sc, c17step{Op: "restart"}) // a new process in the next epoch
+		}
+		k := 0 // ceremony blocks reverted together with the validation-finishing block
+		if len(bs) > 0 && r.Intn(2) == 0 {
+			k = 1 + r.Intn(len(bs))
+		}
+		sc = append(sc, c17step{Op: "rollback", Keep: len(bs) - k})
+		if k > 0 {
+			var back []int
+			for _, b := range bs[len(bs)-k:] {
+				back = append(back, b...)
+			}
+			switch r.Intn(3) {
+			case 0: // the SAME blocks again
+				for _, b := range bs[len(bs)-k:] {
+					sc = append(sc, c17step{Op: "block", Txs: b})
+				}
+			case 1: // a fork branch with the same ceremony transactions, arranged differently
+				r.Shuffle(len(back), func(i, j int) { back[i], back[j] = back[j], back[i] })
+				for _, b := range split(back) {
+					sc = append(sc, c17step{Op: "block", Txs: b})
+				}
+			default: // a fork branch that lacks some of them
+				var some []int
+				for _, t := range back {
+					if r.Intn(3) != 0 {
+						some = append(some, t)
+					}
+				}
+				sc = append(sc, c17step{Op: "block", Txs: some})
+			}
+		}
+		if r.Intn(3) == 0 {
+			sc = append(sc, c17step{Op: "restart"})
+		}
+		sc = append(sc, c17step{Op: "eval"})
+		if r.Intn(3) == 0 {
+			sc = append(sc, c17step{Op: "eval2"})
+		}
+		if r.Intn(3) == 0 { // and once more: the block is accepted again, another fork
+			sc = append(sc, c17step{Op: "finish"}, c17step{Op: "rollback", Keep: 1 << 20}, c17step{Op: "eval"})
 		}
 	default: // reorg: evaluate on branch A, reset, other branch of the same length, evaluate the same height again
 		if ntx < 2 {
@@ -1078,6 +1367,7 @@ func c17ceremonies(c *hx.Ctx) error {
 	n := c.Scale(150, 1500)
 	for i := 0; i < n; i++ {
 		cs := c17genCer(c)
+		cs.Full = i%4 == 3 // a quarter of the ceremonies on the full fixture: mostly rollbacks over the validation-finishing block
 		fx, err := c17newFx(cs)
 		if err != nil {
 			return err
@@ -1085,6 +1375,9 @@ func c17ceremonies(c *hx.Ctx) error {
 		mode := -1
 		if i < 8 {
 			mode = i % 4 // the scripted ones first: every mode at least twice
+		}
+		if cs.Full && i%16 == 15 {
+			mode = 0 // plain ceremony through the real addBlock
 		}
 		c17script(c, &cs, len(fx.txs), mode)
 		if err := c17emitCer(c, cs); err != nil {
